@@ -18,8 +18,8 @@ var stdLayouts = []NamedLayout{
 	{"conventional", gen.EmitOpts{Quote: 1}, gen.Layout{Semi: 1, Space: 1, StmtNL: 1}},
 	{"asi-newlines", gen.EmitOpts{Quote: 2}, gen.Layout{Semi: 0, Space: 1, StmtNL: 1}},
 	{"redundant-parens", gen.EmitOpts{Parens: 0.3, Quote: 2}, gen.Layout{Semi: 0.5, Space: 1, StmtNL: 0.7}},
-	{"newline-everywhere", gen.EmitOpts{Quote: 2}, gen.Layout{Semi: 0.3, Space: 2, NL: 0.7, StmtNL: 0.9, Blank: 0.2, LeadingBlank: true}},
-	{"comments", gen.EmitOpts{Quote: 2}, gen.Layout{Semi: 0.3, Space: 2, NL: 0.4, StmtNL: 0.9, Comment: 0.4, LeadingBlank: true}},
+	{"newline-everywhere", gen.EmitOpts{Quote: 2}, gen.Layout{Semi: 0.3, Space: 2, NL: 0.7, StmtNL: 0.9, Blank: 0.2, LeadingBlank: true, SemiNL: 0.25}},
+	{"comments", gen.EmitOpts{Quote: 2}, gen.Layout{Semi: 0.3, Space: 2, NL: 0.4, StmtNL: 0.9, Comment: 0.4, LeadingBlank: true, SemiNL: 0.15}},
 	{"crlf", gen.EmitOpts{Quote: 2, Parens: 0.1}, gen.Layout{Semi: 0.3, Space: 2, NL: 0.5, StmtNL: 0.9, Comment: 0.2, CRLF: true, Blank: 0.2}},
 	{"minimal-asi", gen.EmitOpts{Quote: 0}, gen.Layout{Semi: 0, Space: 0, StmtNL: 0.5, NoTrailingNL: true}},
 }
@@ -27,5 +27,5 @@ var stdLayouts = []NamedLayout{
 func randomLayout(r *rand.Rand) NamedLayout {
 	return NamedLayout{"random", gen.EmitOpts{Parens: []float64{0, 0, 0.1, 0.4}[r.IntN(4)], Quote: r.IntN(3)},
 		gen.Layout{Semi: r.Float64(), Space: r.IntN(3), NL: r.Float64() * 0.8, StmtNL: r.Float64(), Comment: r.Float64() * 0.4,
-			CRLF: r.IntN(4) == 0, Blank: r.Float64() * 0.3, LeadingBlank: r.IntN(2) == 0, NoTrailingNL: r.IntN(2) == 0}}
+			CRLF: r.IntN(4) == 0, Blank: r.Float64() * 0.3, LeadingBlank: r.IntN(2) == 0, NoTrailingNL: r.IntN(2) == 0, SemiNL: []float64{0, 0, 0.2, 0.6}[r.IntN(4)]}}
 }
